@@ -136,8 +136,8 @@ CHECKS["C11"] = {
     "deadline": {"quick": 1500, "thorough": 4800},
     "engine": "E2 history explorer",
     "jobs": lambda tier: [job("C11.cpp", "C11_w%d" % w, ["-DVWORLD=%d" % w], shards=1) for w in range(6)],
-    "rule": "state = operation history over {update with 6 data sets (same shape / other segment count / other coefficient count / two invalid), evaluate at orders 0/1/top/beyond, hinted evaluate, derivative trajectory, copy-assign, copy-construct, self-assign, swap roles, ...} for PPolyND<2,Dynamic>, PPolyND<2,8>, PPolyND<1,12>, and {update via both overloads with 4 problems, evaluate trajectory, getTrajectoryCopy, copy-assign/construct spline, update copy, propagateGrad, ...} for the three spline classes; after EVERY transition every live object must evaluate (all orders, probe grid, plain + hinted) bit-identically to a fresh object built from its own latest data; distinct = distinct canonical keys (entire private state incl. lazy caches and ready flags); non-trivial = histories of length >= 2 PPolyND worlds: self-aliased updates (the object's own breakpoints / coefficients handed back with the other argument from another data set), a fixed absolute probe time for the history's evaluate operations (checked first); spline worlds: a trajectory reference taken once before all updates is observed first.",
-    "bounds": {"quick": "PPolyND worlds: BFS to depth 8 or fixpoint; spline worlds: BFS to depth 6 (all histories of length <= 3 without de-duplication)", "thorough": "6 worlds, BFS to depth 20 or fixpoint"},
+    "rule": "state = operation history over {update with 6 data sets (same shape / other segment count / other coefficient count / two invalid), evaluate at orders 0/1/top/beyond, hinted evaluate, derivative trajectory, copy-assign, copy-construct, self-assign, swap roles, ...} for PPolyND<2,Dynamic>, PPolyND<2,8>, PPolyND<1,12>, and {update via both overloads with 4 problems, evaluate trajectory, getTrajectoryCopy, copy-assign/construct spline, update copy, propagateGrad, ...} for the three spline classes; after EVERY transition every live object must evaluate (all orders, probe grid, plain + hinted) bit-identically to a fresh object built from its own latest data; distinct = distinct canonical keys (entire private state incl. lazy caches and ready flags); non-trivial = histories of length >= 2 PPolyND worlds: self-aliased updates (the object's own breakpoints / coefficients handed back with the other argument from another data set), a fixed absolute probe time for the history's evaluate operations (checked first); spline worlds: a trajectory reference taken once before all updates is observed first. Round 7, long silent runs (one parameter swept instead of the history length): after the caches were filled once, n consecutive updates with no evaluation in between, for EVERY n = 1..70000 with a copy (copy constructor / getTrajectoryCopy()) evaluated after each update, and for every n <= 600 (thorough 1100) separately with the object itself evaluated after exactly n updates; two update patterns per world (same shape only / shapes and start times change; spline worlds alternate both update overloads and query getEnergy() in between, as an optimizer loop does); a counter or revision stamp that wraps (8 or 16 bits) serves a stale cache exactly there (seeded change C11-m12).",
+    "bounds": {"quick": "PPolyND worlds: BFS to depth 8 or fixpoint; spline worlds: BFS to depth 6 (all histories of length <= 3 without de-duplication); silent-update runs: every n <= 70000 (copy observed), every n <= 600 (object observed), 2 patterns x 6 worlds", "thorough": "6 worlds, BFS to depth 20 or fixpoint; silent-update runs: every n <= 70000 (copy observed), every n <= 1100 (object observed), 2 patterns x 6 worlds"},
     "thresholds": {"all comparisons": "bitwise"},
     "assumptions": ASSUME_COMMON + ["canonical key reads private members through -fno-access-control"],
     "technique": TECH_E2 + "; oracle = fresh-object differential (R5), bitwise",
@@ -168,8 +168,8 @@ CHECKS["C10"] = {
 CHECKS["C20"] = {
     "engine": "E1 lattice explorer",
     "jobs": lambda tier: [job("C20.cpp", "C20")],
-    "rule": "states = distinct (start, end, dt) triples + trajectories + factory calls; (1) unit = (start in {0,0.3,-1.5,100,5000,-7000}, length in {0,2^-20,0.5,1,2.5,10}, residue class of k): every dt = length/k for k = 1..1024 (quick) / 16384 (thorough), each also x(1+-2^-40) and x(1+-1e-7), plus, for k <= 512, dt = (length - rem)/k for rem in {5e-7,2e-6,2e-5,2e-4,2e-3} (k steps falling short by a chosen remainder), plus dt in {1.5 length, 1e-3, 0.01, 0.1, 0.3}: first sample = start exactly, sample i = start + i dt, strictly increasing, none beyond end+1e-6, last within 1e-6 of end, end appended iff short by > 1e-6, final step <= dt; (2) unit = cubic/quintic/septic trajectory (DIM 1 and 3, N in {1,2,3,5}, duration words): batch = pointwise (bitwise), getTrajectoryLength (3 overloads; full range, sub-range, zero length; 4 steps) = left Riemann sum of speed and within dt*int|a| of the Gauss-Legendre arc length; (2b) PPolyND polylines whose speed jumps at every breakpoint, samples landing exactly on breakpoints: length = left Riemann sum with right-continuous speed; (3) unit = factory call zero()/constant() on 6 breakpoint vectors x coefficient count 1..12: initialised on the breakpoints, all derivatives at all probe times exactly 0 / (v,0,0,...); non-trivial = non-degenerate interval / valid breakpoints Also: steps of 5e-7, 2^-20, 1e-6, 2e-6 on short windows.",
-    "bounds": {"quick": "384 sequence units (about 123k sequences), 9 duration words per (order, DIM, N), 4 factory instantiations", "thorough": "384 sequence units (about 1.97M sequences), all 3^N duration words for N in {1,2,3,5}, 4 factory instantiations"},
+    "rule": "states = distinct (start, end, dt) triples + trajectories + factory calls; (1) unit = (start in {0,0.3,-1.5,100,5000,-7000}, length in {0,2^-20,0.5,1,2.5,10}, residue class of k): every dt = length/k for k = 1..1024 (quick) / 16384 (thorough), each also x(1+-2^-40) and x(1+-1e-7), plus, for k <= 512, dt = (length - rem)/k for rem in {5e-7,2e-6,2e-5,2e-4,2e-3} (k steps falling short by a chosen remainder), plus dt in {1.5 length, 1e-3, 0.01, 0.1, 0.3}: first sample = start exactly, sample i = start + i dt, strictly increasing, none beyond end+1e-6, last within 1e-6 of end, end appended iff short by > 1e-6, final step <= dt; (2) unit = cubic/quintic/septic trajectory (DIM 1 and 3, N in {1,2,3,5}, duration words): batch = pointwise (bitwise), getTrajectoryLength (3 overloads; full range, sub-range, zero length; 4 steps) = left Riemann sum of speed and within dt*int|a| of the Gauss-Legendre arc length; (2b) PPolyND polylines whose speed jumps at every breakpoint, samples landing exactly on breakpoints: length = left Riemann sum with right-continuous speed; (3) unit = factory call zero()/constant() on 6 breakpoint vectors x coefficient count 1..12: initialised on the breakpoints, all derivatives at all probe times exactly 0 / (v,0,0,...); non-trivial = non-degenerate interval / valid breakpoints Also: steps of 5e-7, 2^-20, 1e-6, 2e-6 on short windows. Round 7: zero() with EVERY coefficient count 13..200 (Dynamic, DIM 1), every derivative order 0..n+1 at 6 times (incl. outside the range); a failure is attributed to the known finding F3 only where the falling factorial (n-1)!/(n-1-k)! really exceeds DBL_MAX (computed in long double), any other failure is a violation.",
+    "bounds": {"quick": "384 sequence units (about 123k sequences), 9 duration words per (order, DIM, N), 4 factory instantiations, zero() with 13..200 coefficients", "thorough": "384 sequence units (about 1.97M sequences), all 3^N duration words for N in {1,2,3,5}, 4 factory instantiations, zero() with 13..200 coefficients"},
     "thresholds": {"sequence contract": "exact / 1e-6 as stated by the property (borderline band 1e-12 excluded)", "length vs Riemann sum": 1e-12, "length vs true arc length": "dt * integral of |a| + 1e-9 relative"},
     "assumptions": ASSUME_COMMON + ["16-point Gauss-Legendre on 8 sub-intervals per piece as the true arc length"],
     "technique": TECH_E1 + "; every nearly-dividing step k <= 4096 enumerated (the floating-point floor is at risk exactly there)",
@@ -221,7 +221,7 @@ CHECKS["C08"] = {
 CHECKS["C09"] = {
     "engine": "E1 lattice explorer (static part) + E2 history explorer (reconfiguration histories)",
     "jobs": lambda tier: opt_jobs("C09", tier, (1, 2, 3), (1, 2, 3)) + [job("opt_hist.cpp", "C09_hist_s%d" % o, ["-DVPROP=9", "-DVORDER=%d" % o], shards=1, weight=20) for o in (2, 3, 4)],
-    "rule": "static: unit = (order, DIM in 1..3, N in 1..6, ALL 256 flag masks, spatial map in {Identity, Proj with dof = DIM-1 at odd points, Tanh}, time map): getDimension = N + sum dof(optimised points) + DIM x #(flagged derivative blocks the order has); generateInitialGuess decodes back to the reference (model decode and through evaluate + getOptimalSpline); a decision vector with pairwise distinct entries 1 + i/64 decodes to exactly the model's slices (unflagged quantities pinned exactly); the exposed spline equals a fresh spline of the decoded inputs (bitwise); history (E2 BFS): ops {setOptimizationFlags (4 masks), setSpatialMap (null / Proj / Scale), setInitState (N=1 / N=3, both overloads), getDimension, generateInitialGuess, evaluate, copy-construct, assign, swap, reconfigure the copy}; after EVERY transition every live optimizer must report the model's dimension for its CURRENT configuration and evaluate bit-identically to a freshly configured equivalent optimizer; canonical key = all private members incl. the lazy layout cache and its dirty flag",
+    "rule": "static: unit = (order, DIM in 1..3, N in 1..6, ALL 256 flag masks, spatial map in {Identity, Proj with dof = DIM-1 at odd points, Tanh}, time map): getDimension = N + sum dof(optimised points) + DIM x #(flagged derivative blocks the order has); generateInitialGuess decodes back to the reference (model decode and through evaluate + getOptimalSpline); a decision vector with pairwise distinct entries 1 + i/64 decodes to exactly the model's slices (unflagged quantities pinned exactly); the exposed spline equals a fresh spline of the decoded inputs (bitwise); history (E2 BFS): ops {setOptimizationFlags (4 masks), setSpatialMap (null / Proj / Scale), setInitState (N=1 / N=3, both overloads), getDimension, generateInitialGuess, evaluate, copy-construct, assign, swap, reconfigure the copy}; after EVERY transition every live optimizer must report the model's dimension for its CURRENT configuration and evaluate bit-identically to a freshly configured equivalent optimizer; canonical key = all private members incl. the lazy layout cache and its dirty flag Round 7: history operation 'user map A reconfigured in place (Proj <-> Scale, the per-point dofs change) and registered again at the same address on every optimizer that uses it' (a setter that returns early for an unchanged pointer keeps the stale layout: seeded change C09-m12).",
     "bounds": {"quick": "static: 3 orders x DIM 1..3 x N 1..6 x 256 masks x {Identity, Proj} (+ Tanh and the other time maps on a sub-lattice of masks); history: 3 orders, BFS to depth 5", "thorough": "static: 3 orders x DIM 1..3 x N 1..6 x 256 masks x 3 spatial maps x 3 time maps; history: 3 orders, BFS to depth 8 or fixpoint"},
     "thresholds": {"layout / pinning": "exact", "initial-guess round trip": 1e-12},
     "assumptions": ASSUME_OPT,
